@@ -326,15 +326,16 @@ PROPS = {
     "C18": {
         "run": ["EvalProps"], "functional": False,
         "n": {"quick": 300, "thorough": 6000},
-        "level_text": "Theorems: the waited-for-reboot duration is finish -> start of this state machine, reported only with consistent clocks and independent of reporting delay; the install-attempt counter saturates.  "
-                      "The remaining clauses are decided (a) by the executable monitor step18 (Model/Monitors18.v) run on every implementation trace: it simulates the storage view the machine reads and checks that the "
-                      "plan id is rewritten only for a different plan and the first-seen time only together with it (as the current time), that the first-seen duration metric uses the time on record, that the "
-                      "attempts metric carries the stored count + 1 (saturating), is reported exactly for installs that failed or installed something, with the right verdict, and is followed by the matching "
-                      "counter write or removal, that finish time and the system app's offered version are written and committed before the reboot-needed question, and that the waited-for-reboot duration is "
-                      "reported at most once, only on the recorded target version, with exactly the duration of the theorem, followed by removal of both keys and a commit; (b) by trace equality between the "
-                      "state-machine model and the real state machine on the storage / clock / installer / metric projection.",
-        "level_note": "PARTIAL at the level of theorems (stated in Props/C18.v): that every model trace is accepted by step18 is not proved (the rules depend on values read back from storage, which the "
-                      "trace-Hoare framework does not see).  Model = code is sampled on scripted runs.",
+        "level_text": "Theorems: (1) the waited-for-reboot duration is finish -> start of this state machine, reported only with consistent clocks and independent of reporting delay; the install-attempt counter "
+                      "saturates; (2) C18_bookkeeping_monitor_accepts_every_model_trace: for every script, configuration, stored state, entry point and every app set whose ids do not collide with the five bookkeeping "
+                      "keys, the model's trace is accepted by the executable monitor step18 (Model/Monitors18.v), which keeps a ghost copy of the storage view the machine reads (linked to the model's store in the proof, "
+                      "Proofs/MonitorL.v) and demands: the plan id is rewritten only for a different plan and the first-seen time only together with it (as the current time); the first-seen duration metric uses the time "
+                      "on record; the attempts metric carries the stored count + 1 (saturating), is reported exactly for installs that failed or installed something, with the right verdict, and is followed by the "
+                      "matching counter write or removal before the result; finish time and the system app's offered version are written and committed before the reboot-needed question; the waited-for-reboot "
+                      "duration is reported at most once, only on the recorded target version, with exactly the duration of (1), followed by removal of both keys and a commit.  Model tied to the code by trace "
+                      "equality on the storage / clock / installer / metric projection; the monitor also runs on every implementation trace.",
+        "level_note": "Proved for the model, unbounded, under the premise that no app id equals a bookkeeping key.  Restart is covered by starting the monitor from the store the machine is built on; that the store "
+                      "survives a restart is the Storage contract (trusted base).  Model = code is sampled on scripted runs.",
         "diff_meaning": "The bookkeeping monitor rejects the implementation's trace (code 2), or the storage / clock / installer / metric projection differs from the model's.",
         "rule": "random scripted histories of install attempts (plan ids from a small alphabet, per-app results, manifest version present or not) with stored first-seen/finish/target-version values of every kind, clock steps; distinct = distinct implementation trace; non-trivial = at least one request or completed check",
         "assumptions": ["harness trait implementations follow the trait contracts", "Storage trait contract: writes cached until commit, commit atomic"],
